@@ -16,6 +16,7 @@ from typing import (
     Optional,
     Tuple,
     cast,
+    get_origin,
 )
 from abc import ABC, abstractmethod
 import struct
@@ -917,7 +918,9 @@ class UnionSerializer(TypeSerializer[T, np.object_]):
         cases: list[Optional[tuple[type, TypeSerializer[Any, Any]]]],
     ) -> None:
         super().__init__(np.object_)
-        self._union_type = union_type
+        # An alias of a generic union can be a subscripted generic (U = T1OrString[T1]),
+        # which cannot be used in instance checks
+        self._union_type = get_origin(union_type) or union_type
         self._cases = cases
         self._offset = 1 if cases[0] is None else 0
 
